@@ -101,7 +101,7 @@ def run(r):
     # purity first: cheap, robust, and a recorded violation takes precedence over a later 'cannot decide'
     check_pure_params(r, "C05-PURE", [D + "pcDelta", D + "downsample", D + "get_default_metric_for_input_data"])
     eq = Equiv(vec=is_vec, rewrites=std_rewrites() + [hist_rewrite], modelled={"numpy.histogram", "numpy.arange"})
-    compare_function(r, "C05-PIPE", D + "pcDelta", SPEC, "pcDelta: histogram (count slot, bins forwarded) of the condensed self distances or of the cross matrix of the down-sampled collections; "
+    pipe_verdict = compare_function(r, "C05-PIPE", D + "pcDelta", SPEC, "pcDelta: histogram (count slot, bins forwarded) of the condensed self distances or of the cross matrix of the down-sampled collections; "
                      "raw counts / counts over total / (counts + c) over (total + 2c); bins == 0 returns pc of the same arguments", eq=eq, key="pipeline and arithmetic")
     # path agreement at pseudocount = 0
     s = r.A.summary(D + "pcDelta")
@@ -111,7 +111,10 @@ def run(r):
         raise AnalysisBroken("pcDelta: parameter pseudocount vanished")
     cp = canon_params(s)
     pterm = ("param", f"#{pc_i}")
-    lv = leaves(eq.prep(subst(s.ret if head(strip(s.ret)) != "try" else strip(s.ret)[1], cp)))
+    if pipe_verdict is None:
+        lv = []          # the pipeline comparison itself was undecided: the self-consistency of its branches cannot be read either
+    else:
+        lv = leaves(eq.prep(subst(s.ret if head(strip(s.ret)) != "try" else strip(s.ret)[1], cp)))
     with_c = [leaf for g, leaf in lv if any(x == pterm for x in walk(leaf))]
     no_c = [leaf for g, leaf in lv if any(strip_all(c) == ("un", "not", pterm) and pol or strip_all(c) == pterm and not pol for c, pol in g)]
     n = 0
@@ -129,7 +132,7 @@ def run(r):
             n += 1
             ok = eq.leaf_eq(a0, b)
             rep.ob("C05-RF", D + "pcDelta", ok, "the pseudocount form reduces to counts / total at pseudocount = 0", where_of(r.P, s.func, s.func.node), expected=eq.last[1] if eq.last else "", found=eq.last[0] if eq.last else "", key=f"agreement at c=0 #{n}")
-    rep.require(n >= 1, "C05-RF: no pair of normalised leaves to compare at pseudocount = 0")
+    rep.require(n >= 1 or pipe_verdict is None, "C05-RF: no pair of normalised leaves to compare at pseudocount = 0")
     # default metric table
     compare_function(r, "C05-DT", D + "get_default_metric_for_input_data", SPEC, "default metric: paired CDR3 Levenshtein with both CDR3 columns, alpha / beta with one, plain Levenshtein otherwise",
                      eq=Equiv(rewrites=std_rewrites()), key="default metric table")
